@@ -115,6 +115,10 @@ class Renamer(object):
         for modname in sorted(self.trees):
             if modname in self.shapes:
                 self._module(modname)
+        # classes now carry their confirmed names: a base class the tables do not know is folded into the known classes that derive from it
+        from .canon import flatten_new_bases
+        known_classes = set(c for m in self.shapes.values() for c in m["classes"])
+        self.log.extend(flatten_new_bases(self.trees, known_classes))
         for modname in sorted(self.trees):
             if modname in self.shapes:
                 for cls in [st for st in self.trees[modname].body if isinstance(st, ast.ClassDef)]:
